@@ -684,6 +684,7 @@ def log_calls(nm, case, run, bid):
     """The recorded primitive calls in order, in the model's gcall encoding."""
     out = []
     g = case["gen"]
+    n_type_calls = 0
     for e in run["log"]:
         k = e["kind"]
         if k == "np_uniform":
@@ -693,11 +694,11 @@ def log_calls(nm, case, run, bid):
         elif k == "np_choice":
             if isinstance(e["a"], int):
                 # table of ballot types
-                owner = None
-                for b in case["blocs"]:
-                    keys = list(run["gen"].ballot_type_pdf[b].keys())
-                    if len(keys) == e["a"] and all(abs(x - y) < 1e-12 for x, y in zip(e["p"], run["gen"].ballot_type_pdf[b].values())):
-                        owner = b
+                # one ballot-type draw per bloc, in the generator's bloc order (two blocs can have tables of the
+                # same length and probabilities, so the table is identified by position, not by its numbers)
+                blocs_in_order = list(run["gen"].blocs)
+                owner = blocs_in_order[n_type_calls % len(blocs_in_order)]
+                n_type_calls += 1
                 keys = list(run["gen"].ballot_type_pdf[owner].keys())
                 n = e["size"]
                 out.append([5, S([[[bid[x] for x in kk], rnd9(p)] for kk, p in zip(keys, e["p"])]), n])
